@@ -83,7 +83,23 @@ def multiwait(rng):
     return spec, [hr], dict(policy=rng.choice(["random", "fifo", "lifo"]), time_bias=0.0)
 
 
-TEMPLATES = [fanout, waitfan, multiwait]
+def samefan(rng):
+    """fan-out of events with IDENTICAL payload: start sends n equal T1 -> `b_work` (k < n workers, gated) returns T2 ->
+    `c_gather` collects n T2 -> Stop.  The invocations of b_work cannot be told apart by their input: slot bookkeeping
+    must go by worker id, whatever order they finish in."""
+    n = rng.choice([3, 4, 5])
+    k = rng.choice([2, 2, 3])
+    spec = dict(steps={
+        "a_start": dict(accepts=[StartEvent], returns=[T1, type(None)], num_workers=1,
+                        script=[("send_same", T1, n, None), ("return", None)]),
+        "b_work": dict(accepts=[T1], returns=[T2], num_workers=k, script=[("gate", "w"), ("return", T2)]),
+        "c_gather": dict(accepts=[T2], returns=[StopEvent, type(None)], num_workers=1,
+                         script=[("collect", [T2] * n, None), ("return", StopEvent)]),
+    })
+    return spec, [], dict(policy=rng.choice(["lifo", "random", "lifo"]))
+
+
+TEMPLATES = [fanout, waitfan, multiwait, samefan]
 
 
 def targeted(rng):
@@ -265,7 +281,8 @@ def exits(rng):
     raises, a step returning a non-event, several invocations racing to return StopEvent, user cancellation at a random
     moment, the workflow timeout, and a body that publishes while it is being cancelled."""
     mode = rng.choice(["result", "step_fail", "policy_raises", "pred_raises", "other_return", "stop_race", "cancel",
-                       "timeout", "cancel", "timeout", "finally_publish", "user_policy_object", "stop_race_publish"])
+                       "timeout", "cancel", "timeout", "finally_publish", "user_policy_object", "stop_race_publish",
+                       "stop_race_slow_unwind"])
     n = rng.choice([1, 2, 3])
     k = rng.choice([1, 2, 3])
     pol = None
@@ -295,6 +312,12 @@ def exits(rng):
         # being cancelled
         n, k = rng.choice([2, 3]), rng.choice([2, 3])
         bscript = [("on_cancel_publish", U6), ("gate", "w"), ("return", StopEvent)]
+    elif mode == "stop_race_slow_unwind":
+        # the first invocation to finish returns StopEvent BEFORE the workflow timeout; its siblings need longer than the
+        # remaining time to unwind from their cancellation: the run finished first and must not be timed out
+        n, k = rng.choice([2, 3]), rng.choice([2, 3])
+        timeout = rng.choice([2.0, 5.0])
+        bscript = [("on_cancel_sleep", 3 * timeout), ("gate", "w"), ("return", StopEvent)]
     elif mode == "timeout":
         timeout = rng.choice([2.0, 5.0])
     elif mode == "finally_publish":
@@ -318,13 +341,44 @@ def exits(rng):
     return spec, ext, dict(policy=rng.choice(["random", "lifo", "fifo"]))
 
 
+def selfcancel(rng):
+    """a step body that ends with CancelledError of its own making (it awaits a cancelled future) while the run goes on:
+    start sends n T1 -> `b_work` (k workers, gated): the invocation for the first event cancels itself, the others return T2
+    -> `c_gather` collects n-1 T2 -> Stop."""
+    n = rng.choice([2, 3, 4])
+    spec = dict(steps={
+        "a_start": dict(accepts=[StartEvent], returns=[T1, type(None)], num_workers=1,
+                        script=[("send", T1, n, None), ("return", None)]),
+        "b_work": dict(accepts=[T1], returns=[T2], num_workers=rng.choice([1, 2, 3]),
+                       script=[("gate", "w"), ("self_cancel", [1]), ("return", T2)]),
+        "c_gather": dict(accepts=[T2], returns=[StopEvent, type(None)], num_workers=1,
+                         script=[("collect", [T2] * (n - 1), None), ("return", StopEvent)]),
+    }, timeout=200.0)
+    return spec, [], dict(policy=rng.choice(["random", "fifo", "lifo"]))
+
+
+def lockflow(rng):
+    """events that carry a payload which cannot be copied (a lock): start sends n T1 -> `b_work` (gated) returns T2 with the
+    payload -> `c_done` collects n T2 (the buffer holds such events across several invocations) -> Stop."""
+    n = rng.choice([2, 3, 4])
+    spec = dict(steps={
+        "a_start": dict(accepts=[StartEvent], returns=[T1, type(None)], num_workers=1,
+                        script=[("send", T1, n, None), ("return", None)]),
+        "b_work": dict(accepts=[T1], returns=[T2], num_workers=rng.choice([1, 2, 3]), script=[("gate", "w"), ("return_lock", T2)]),
+        "c_done": dict(accepts=[T2], returns=[StopEvent, type(None)], num_workers=rng.choice([1, 2]),
+                       script=[("collect", [T2] * n, None), ("return", StopEvent)]),
+    })
+    spec["mode"] = "uncopyable_payload"
+    return spec, [], dict(policy=rng.choice(["random", "lifo", "fifo"]))
+
+
 def exits_tc(rng):
     """exits restricted to the timeout / cancellation modes (C31); time passes more readily so that timeouts strike
     while step work is in progress, and sometimes the run finishes just before its timeout"""
     while True:
         r2 = __import__("random").Random(rng.randrange(1 << 30))
         spec, ext, opts = exits(r2)
-        if spec["mode"] in ("cancel", "timeout", "finally_publish", "other_return"):
+        if spec["mode"] in ("cancel", "timeout", "finally_publish", "other_return", "stop_race_slow_unwind"):
             break
     opts = dict(opts)
     opts["time_bias"] = 0.35
@@ -479,6 +533,30 @@ def rd_wait(rng):
         f.label = "HR(k=%d)" % i
         return f
     return spec, [mk(i) for i in ids], dict(policy=rng.choice(["random", "lifo", "fifo"]))
+
+
+def rd_multi(rng):
+    """runner differential: several invocations of one step wait for ANY HR under their own waiter ids (gate first);
+    one external HR resolves all waiters that exist at that moment in one tick, with k <= n slots for the replays"""
+    n = rng.choice([2, 3])
+    k = rng.choice([1, 2, n])
+    spec = dict(steps={
+        "a_start": dict(accepts=[StartEvent], returns=[T1, type(None)], num_workers=1,
+                        script=[("send", T1, n, None), ("return", None)]),
+        "b_wait": dict(accepts=[T1], returns=[T2], num_workers=k,
+                       script=[("gate", "g"), ("wait", HR, {}, None, "w$i", None, "none"), ("return", T2)]),
+        "c_gather": dict(accepts=[T2], returns=[StopEvent, type(None)], num_workers=1,
+                         script=[("gate", "c"), ("collect", [T2] * n, None), ("return", StopEvent)]),
+    })
+
+    def mk(i):
+        def f(handler, rec):
+            rec.ev("external", ev="HR", k=i)
+            handler.ctx.send_event(HR(k=i))
+        f.label = "HR(k=%d)" % i
+        return f
+    # (enough responses for every waiter even when each resolves a single one; surplus responses are unhandled events)
+    return spec, [mk(0) for _ in range(n + 2)], dict(policy=rng.choice(["random", "lifo", "fifo"]))
 
 
 def rd_ir(rng):
